@@ -619,6 +619,33 @@ fn skel(ts: proc_macro2::TokenStream, erase_ident: bool, out: &mut String, lits:
         }
       }
     }
+    // layout-only choices of the pretty-printer (they follow line width, hence literal length):
+    // a comma before a closing delimiter, and braces around a single-expression match arm
+    if let TokenTree::Punct(p) = &toks[i] {
+      if p.as_char() == ',' && i + 1 == toks.len() {
+        i += 1;
+        continue;
+      }
+      if p.as_char() == '>' && i > 0 {
+        if let (Some(TokenTree::Punct(prev)), Some(TokenTree::Group(g))) = (toks.get(i - 1), toks.get(i + 1)) {
+          if prev.as_char() == '=' && prev.spacing() == proc_macro2::Spacing::Joint && g.delimiter() == proc_macro2::Delimiter::Brace {
+            let inner: Vec<TokenTree> = g.stream().into_iter().collect();
+            let has_semi = inner.iter().any(|t| matches!(t, TokenTree::Punct(q) if q.as_char() == ';'));
+            if !has_semi && !inner.is_empty() {
+              out.push('>');
+              skel(g.stream(), erase_ident, out, lits);
+              // the separator a bare-expression arm would carry (dropped again when it is the last arm)
+              let next_is_comma = matches!(toks.get(i + 2), Some(TokenTree::Punct(q)) if q.as_char() == ',');
+              if !next_is_comma && i + 2 < toks.len() {
+                out.push(',');
+              }
+              i += 2;
+              continue;
+            }
+          }
+        }
+      }
+    }
     match &toks[i] {
       TokenTree::Group(g) => {
         let (o, c) = match g.delimiter() {
